@@ -51,6 +51,15 @@ func c07corpus(r *drv.Run, n int) []*corpus.Item {
 			items = append(items, corpus.FlateFamily(rr, p)...)
 			continue
 		}
+		if i%64 == 9 && !toolErr {
+			// multi-block streams (bzip2's combined stream CRC, xz block lists)
+			p := corpus.MakePayload(rr, "multiblock")
+			if ti, err := corpus.ToolItems(rr, p); err == nil {
+				items = append(items, ti...)
+			}
+			items = append(items, corpus.FlateFamily(rr, p)[:1]...)
+			continue
+		}
 		switch i % 8 {
 		case 6:
 			items = append(items, corpus.PNGItem(rr), corpus.PNGItem(rr), corpus.PNGItem(rr))
@@ -95,6 +104,40 @@ func runC07(r *drv.Run) drv.Spec {
 		n = 40000
 	}
 	items := c07corpus(r, n)
+	// hashers at their block boundaries: payloads of 1..3 blocks (+-1 byte) for
+	// block sizes 16/32/64/128, hashed under EVERY two-piece partition and under
+	// three-piece partitions whose cuts sit around the block boundaries
+	type part struct {
+		it     *corpus.Item
+		splits string
+	}
+	var parts []part
+	{
+		hr := vk.CaseRNG(r.Seed, 0, "c07hashblocks", 0)
+		seenT := map[int]bool{}
+		for _, B := range []int{16, 32, 64, 128} {
+			for _, T := range []int{B, 2 * B, 3 * B, 2*B - 1, 2*B + 1} {
+				if seenT[T] {
+					continue
+				}
+				seenT[T] = true
+				buf := make([]byte, T)
+				hr.Read(buf)
+				his := corpus.HashItems(corpus.Payload{B: buf, Class: fmt.Sprintf("blocks-%d", T)})
+				items = append(items, his...)
+				for _, hi := range his {
+					for k := 1; k < T; k++ {
+						parts = append(parts, part{hi, fmt.Sprintf("%d,%d", k, T-k)})
+					}
+					for _, a := range []int{1, B - 1, B, B + 1} {
+						for b := 1; b <= B && a+b < T; b++ {
+							parts = append(parts, part{hi, fmt.Sprintf("%d,%d,%d", a, b, T-a-b)})
+						}
+					}
+				}
+			}
+		}
+	}
 	if err := corpus.WriteItems(r.Scratch+"/c07", items, "i"); err != nil {
 		drv.Fatal("%v", err)
 	}
@@ -125,6 +168,9 @@ func runC07(r *drv.Run) drv.Spec {
 			line += wbFor(it.Kind)
 		}
 		jobs = append(jobs, &wd.Job{Text: line + "\n", Tag: it})
+	}
+	for _, p := range parts {
+		jobs = append(jobs, &wd.Job{Text: fmt.Sprintf("job=decode kind=%s in=%s splits=%s\n", p.it.Kind, p.it.Path, p.splits), Tag: p.it})
 	}
 	for _, variant := range []string{"asan", "plain"} {
 		res := e.run(variant, jobs, "c07-"+variant, 3000)
